@@ -15,8 +15,14 @@ Oracle, per edge and per block: with `en` = value of the domain's enable net rea
             unchanged across the edge;
   en != 0 (or ungated): reference state := nxt(reference state, inputs read before the edge);
   always  : outputs == out(reference state, inputs read after the edge)   (once the block was clocked at least once)
-and, per design, sim.clockDrivers[drv].clockables is compared with "nearest ancestor carrying a driver" computed
-on the plan tree.
+and, per elaboration, sim.clockDrivers[drv].clockables is compared (by driver identity) with "nearest ancestor carrying
+a driver" computed on the plan tree.
+
+Construction histories (plan fields form / attach / early / rephase): the gated driver is built with or without base=
+and wire=, keyword or positional; it is attached when its node is created, or only after something already resolved
+clock drivers on the half-built design (an early hw.getSimulator(), a Scope or OldWaveform probe, an RTL generation,
+direct getObjectClockDriver queries), or in the middle of the run; in the middle of the run drivers may also be detached
+or replaced by a fresh driver on another domain's enable, followed by hw.getSimulator() and a new assignment check.
 """
 import sys
 import time
@@ -28,7 +34,9 @@ from .common import muted, rng, shard_slice, stable_hash
 
 LEVEL = 'exploration'
 RULE = ('one case = one generated design (1-3 gated domains of kinds poked/reg_out/self_not/self_or/gatedclock, driver at depth '
-        '1-3, 1-3 catalogue blocks per domain with ungated twins, optional nesting and cross-domain connections) simulated for '
+        '1-3 built in one of 5 constructor forms and attached at creation / after an early driver-resolving step (simulator, Scope, '
+        'OldWaveform, RTL generation, direct query) / in the middle of the run, optional mid-run detach/attach/replace + '
+        're-elaboration, 1-3 catalogue blocks per domain with ungated twins, optional nesting and cross-domain connections) simulated for '
         'N edges under random duty-cycle stimulus; one evaluation = one block judged at one edge; a design is non-trivial when '
         'some domain saw both enable==0 and enable!=0 edges and some gated block diverged from its ungated twin; distinct by '
         'plan+stimulus content')
@@ -117,8 +125,23 @@ def gen_plan(rnd, idx, pool, cycles):
         doms.append(d)
     order = list(range(3 * ndom))
     rnd.shuffle(order)
+    # construction history: how each gated driver is built, when it is attached, what resolves drivers in between, and
+    # whether the clock tree is changed (detach / attach / replace + re-elaboration) in the middle of the run
+    for d in doms:
+        d['form'] = rnd.choice(('base_wire', 'base_wire') + FORMS[1:])
+        d['attach'] = rnd.choice(('at_creation', 'at_creation', 'after_build', 'after_build', 'late'))
+    early = rnd.choice(('none', 'none') + EARLY[1:])
+    rephase = None
+    if any(d['attach'] == 'late' for d in doms) or rnd.random() < 0.3:
+        changes = {}
+        for k, d in enumerate(doms):
+            repl = 'replace:%d:%s' % (rnd.randrange(ndom), rnd.choice(FORMS))
+            ch = rnd.choice(('attach', 'attach', repl)) if d['attach'] == 'late' else rnd.choice(('keep', 'detach', 'detach', repl))
+            if ch != 'keep':
+                changes[str(k)] = ch
+        rephase = dict(at=rnd.randint(cycles // 4, (3 * cycles) // 4), probe=rnd.choice(('none', 'none', 'scope', 'sim', 'query')), changes=changes)
     # driver names need not be unique (a reusable block may build ClockDriver('gclk', ...) in its constructor): identity must count
-    return dict(domains=doms, order=order, cycles=cycles, same_names=(ndom >= 2 and rnd.random() < 0.4))
+    return dict(domains=doms, order=order, cycles=cycles, same_names=(ndom >= 2 and rnd.random() < 0.4), early=early, rephase=rephase)
 
 
 def gen_stimulus(rnd, plan, cycles):
@@ -165,8 +188,27 @@ def enable_column(rnd, w, cycles, low=False):
 
 # --------------------------------------------------------------------------- building a plan in the real library
 
+FORMS = ('base_wire', 'base_nowire', 'nobase_wire', 'nobase_nowire', 'positional_nobase')
+EARLY = ('none', 'sim', 'scope', 'oldwaveform', 'query', 'rtl')
+
+
+def make_driver(py4hw, hw, name, form, en, clkwire):
+    """every legal way of building a gated ClockDriver: base= is optional (only RTL generation reads it), so is wire="""
+    if form == 'base_wire':
+        return py4hw.ClockDriver(name, base=hw.clockDriver, enable=en, wire=clkwire())
+    if form == 'base_nowire':
+        return py4hw.ClockDriver(name, base=hw.clockDriver, enable=en)
+    if form == 'nobase_wire':
+        return py4hw.ClockDriver(name, enable=en, wire=clkwire())
+    if form == 'nobase_nowire':
+        return py4hw.ClockDriver(name, enable=en)
+    if form == 'positional_nobase':
+        return py4hw.ClockDriver(name, 25E6, 0, None, en, clkwire())
+    raise ValueError(form)
+
+
 class Node:
-    """plan-side hierarchy node: what the oracle knows about the placement of drivers"""
+    """plan-side hierarchy node: what the oracle knows about the placement of drivers (driver = driver record or None)"""
 
     def __init__(self, parent, name, driver=None):
         self.parent, self.name, self.driver = parent, name, driver
@@ -185,22 +227,24 @@ class Built:
 
 
 def build(plan):
+    """instantiate the blocks, run the plan's early resolution step, attach the drivers, elaborate"""
     import py4hw
     py4hw.Wire.prepared = []
     B = Built()
     hw = py4hw.HWSystem()
     B.hw = hw
-    root = Node(None, 'HWSystem', 'clk')
+    B.rootdrv = dict(key='root', name=hw.clockDriver.name, obj=hw.clockDriver, en=None, kind='ungated', enw=0, form='root')
+    root = Node(None, 'HWSystem', B.rootdrv)
     wires = {}
-    widths = {}
     B.pokes = []
+    B.nprobes = 0
 
     def W(name, w):
         if name not in wires:
             wires[name] = hw.wire(name, w)
-            widths[name] = w
         return wires[name]
 
+    B.W = W
     doms = plan['domains']
     # nets first, so that instantiation order is free
     for k, d in enumerate(doms):
@@ -221,8 +265,9 @@ def build(plan):
         else:
             W('en%d' % k, d['enw'])
     B.blocks = []
-    B.domains = []
-    drivers = {}
+    B.drvrec = {}        # domain index -> driver record currently planned for that domain
+    B.site = {}          # domain index -> (py4hw object that carries the driver, plan node)
+    B.attached = {}      # domain index -> bool
     dom_nodes = {}
 
     def inst_block(b, parent_logic, parent_node, out_prefix, inst, dom):
@@ -249,7 +294,6 @@ def build(plan):
 
     def make_domain(k, parent_logic, parent_node):
         d = doms[k]
-        drv = drivers[k]
         pl, pn = parent_logic, parent_node
         for j in range(d['depth'] - 1):      # depth = level of the object that carries the driver (HWSystem = 0)
             pl = py4hw.Logic(pl, 'w%d_%d' % (k, j))
@@ -257,13 +301,16 @@ def build(plan):
         if d['on_block']:
             # the driver sits on the catalogue block itself (for Reg / memories / Sequence / AutoReset: on a primitive leaf)
             rec = inst_block(d['blocks'][0], pl, pn, 'o', d['blocks'][0]['id'], k)
-            rec['obj'].clockDriver = drv
-            rec['node'].driver = drv.name
+            B.site[k] = (rec['obj'], rec['node'])
+            if d.get('attach', 'at_creation') == 'at_creation':
+                attach(B, k)
             dom_nodes[k] = (pl, pn)      # a nested domain cannot live inside a block: it becomes a sibling
         else:
             dl = py4hw.Logic(pl, 'd%d' % k)
-            dn = Node(pn, dl.name, drv.name)
-            dl.clockDriver = drv
+            dn = Node(pn, dl.name)
+            B.site[k] = (dl, dn)
+            if d.get('attach', 'at_creation') == 'at_creation':
+                attach(B, k)             # before the children exist
             dom_nodes[k] = (dl, dn)
             for b in d['blocks']:
                 bl, bn = dl, dn
@@ -283,13 +330,8 @@ def build(plan):
     def make_ensrc(k):
         d = doms[k]
         en = wires['en%d' % k]
-        if d['kind'] == 'poked':
-            # en itself is poked: route it through nothing
-            pass
-        elif d['kind'] == 'reg_out':
-            pass        # instantiated below (needs its output net to be the enable net)
-        elif d['kind'] == 'gatedclock':
-            py4hw.GatedClock(hw, 'gc%d' % k, wires['p_en%d' % k], en, drivers[k])
+        if d['kind'] == 'gatedclock':
+            py4hw.GatedClock(hw, 'gc%d' % k, wires['p_en%d' % k], en, B.drvrec[k]['obj'])
         elif d['kind'] == 'self_not':
             py4hw.Not(hw, 'ennot%d' % k, wires['o_%s_q' % d['blocks'][0]['id']], en)
         elif d['kind'] == 'self_or':
@@ -297,8 +339,13 @@ def build(plan):
         for b in d['outside']:
             inst_block(b, hw, root, 'o', b['id'], None)
 
-    for k in range(len(doms)):
-        drivers[k] = py4hw.ClockDriver('gclk' if plan.get('same_names') else 'clk_d%d' % k, base=hw.clockDriver, enable=wires['en%d' % k], wire=W('clkw_d%d' % k, 1))
+    B.wires = wires
+    for k, d in enumerate(doms):
+        name = 'gclk' if plan.get('same_names') else 'clk_d%d' % k
+        form = d.get('form', 'base_wire')
+        obj = make_driver(py4hw, hw, name, form, wires['en%d' % k], lambda k=k: W('clkw_d%d' % k, 1))
+        B.drvrec[k] = dict(key='d%d' % k, name=name, obj=obj, en=wires['en%d' % k], kind=d['kind'], enw=d['enw'], form=form)
+        B.attached[k] = False
     items = []
     for k in range(len(doms)):
         items += [('dom', k), ('twins', k), ('ensrc', k)]
@@ -312,11 +359,7 @@ def build(plan):
         else:
             make_ensrc(k)
     B.pokes += ['p_en%d' % k for k, d in enumerate(doms) if d['kind'] in ('poked', 'gatedclock', 'self_or')]
-    B.wires = wires
-    B.drivers = drivers
-    for k, d in enumerate(doms):
-        B.domains.append(dict(k=k, kind=d['kind'], en=wires['en%d' % k], drv=drivers[k], enw=d['enw']))
-    B.sim = hw.getSimulator()
+    B.sim = None
     # what is frozen when a domain is gated: nets driven by the block's clockable leaves + their int / list attributes
     for rec in B.blocks:
         leaves = seqcat.clockable_leaves(rec['obj'])
@@ -336,7 +379,75 @@ def build(plan):
                         and all(isinstance(x, int) for x in v):
                     at.append((leaf, name, True))
         rec['fattrs'] = at
+    # something resolves clock drivers while part of the drivers is not attached yet (a probe, an early simulator, RTL ...)
+    B.early_result = resolve_early(B, plan.get('early', 'none'))
+    for k, d in enumerate(doms):
+        if d.get('attach', 'at_creation') == 'after_build':
+            attach(B, k)
+    elaborate(B)
     return B
+
+
+def attach(B, k):
+    obj, node = B.site[k]
+    obj.clockDriver = B.drvrec[k]['obj']
+    node.driver = B.drvrec[k]
+    B.attached[k] = True
+
+
+def detach(B, k):
+    obj, node = B.site[k]
+    obj.clockDriver = None
+    node.driver = None
+    B.attached[k] = False
+
+
+def elaborate(B):
+    """(re-)elaborate: HWSystem.getSimulator() re-sorts the existing simulator; then map every block to its gating driver"""
+    B.sim = B.hw.getSimulator()
+    for rec in B.blocks:
+        rec['drv'] = rec['node'].nearest_driver()
+    seen = []
+    for rec in B.blocks:
+        if rec['drv'] is not B.rootdrv and not any(rec['drv'] is d for d in seen):
+            seen.append(rec['drv'])
+    B.gating = seen
+
+
+def resolve_early(B, how):
+    """things a user legitimately does while the design is still being put together; each of them looks up clock drivers.
+    -> None, or (object path, observed driver, expected driver record) when a direct query answered wrongly"""
+    import py4hw
+    hw = B.hw
+    B.nprobes += 1
+    tag = B.nprobes
+    some = [rec['outs'][o] for rec in B.blocks[:2] for o in list(rec['outs'])[:1]]
+    if how == 'sim':
+        hw.getSimulator()
+    elif how == 'scope':
+        py4hw.Scope(hw, 'probe_scope%d' % tag, some)
+    elif how == 'oldwaveform':
+        py4hw.OldWaveform(hw, 'probe_wave%d' % tag, some)
+    elif how == 'rtl':
+        try:
+            py4hw.VerilogGenerator(hw).getVerilogForHierarchy()
+        except Exception:
+            B.rtl_raised = True       # several catalogue blocks are not translatable; the lookups it made before still count
+    elif how == 'query':
+        for rec in B.blocks:
+            exp = rec['node'].nearest_driver()
+            objs = list(rec['leaves'])
+            o = rec['obj']
+            while o is not None and o is not hw:
+                objs.append(o)
+                o = o.parent
+            for o in objs:
+                got = py4hw.getObjectClockDriver(o)
+                # only objects at or below the block are judged against the block's driver; wrappers above it may sit above
+                # the node that carries the driver
+                if (o is rec['obj'] or o in rec['leaves']) and got is not exp['obj']:
+                    return o.getFullPath(), getattr(got, 'name', got), exp
+    return None
 
 
 def frozen_state(rec):
@@ -346,35 +457,36 @@ def frozen_state(rec):
 
 # --------------------------------------------------------------------------- oracle
 
-def check_assignment(run, B, plan, case):
-    """sim.clockDrivers[drv].clockables  ==  nearest ancestor with a driver, computed on the plan tree"""
+def check_assignment(run, B, plan, case, when='elaboration'):
+    """sim.clockDrivers[drv].clockables  ==  nearest ancestor with a driver, computed on the plan tree (by identity)"""
     actual = {}
     dup = []
     for drv, cds in B.sim.clockDrivers.items():
         for leaf in cds.clockables:
             if id(leaf) in actual:
                 dup.append(leaf.getFullPath())
-            actual[id(leaf)] = drv.name
+            actual[id(leaf)] = drv
     ok = True
     n = 0
     for rec in B.blocks:
         exp = rec['node'].nearest_driver()
-        rec['expected_driver'] = exp
         for leaf in rec['leaves']:
             n += 1
             got = actual.get(id(leaf))
-            if got != exp:
+            if got is not exp['obj']:
                 ok = False
-                kind = 'root' if rec['dom'] is None else plan['domains'][rec['dom']]['kind']
+                gname = getattr(got, 'name', None)
                 run.violation('c10_driver_assignment',
-                              dict(placement=placement(plan, rec), expected_is_root=(exp == 'clk'), observed_is_root=(got == 'clk')),
-                              dict(case, leaf=leaf.getFullPath()), expected=exp, observed=got,
-                              what='leaf %s (%s, domain kind %s) is clocked by %r, nearest ancestor with a driver is %r'
-                                   % (leaf.getFullPath(), rec['entry'].name, kind, got, exp))
+                              dict(placement=placement(plan, rec), expected_is_root=(exp is B.rootdrv), observed_is_root=(got is B.rootdrv['obj']),
+                                   when=when, early=plan.get('early', 'none')),
+                              dict(case, leaf=leaf.getFullPath(), when=when), expected=exp['key'] + ':' + exp['name'], observed=gname,
+                              what='%s: leaf %s (%s) is clocked by driver %r%s, nearest ancestor with a driver carries %s %r (early step: %s)'
+                                   % (when, leaf.getFullPath(), rec['entry'].name, gname,
+                                      ' (the root driver)' if got is B.rootdrv['obj'] else '', exp['key'], exp['name'], plan.get('early', 'none')))
                 break
     if dup:
         ok = False
-        run.violation('c10_driver_assignment', dict(placement='duplicate'), dict(case, leaves=dup[:5]), observed=dup[:5],
+        run.violation('c10_driver_assignment', dict(placement='duplicate', when=when), dict(case, leaves=dup[:5]), observed=dup[:5],
                       what='leaves registered with more than one clock driver: %r' % dup[:3])
     run.count('driver_assignments_checked', n)
     return ok
@@ -390,6 +502,29 @@ def placement(plan, rec):
     if d['inside'] is not None:
         s += '_inside_other_domain'
     return s
+
+
+def apply_rephase(B, plan, rp):
+    """mid-run change of the clock tree followed by a re-elaboration (HWSystem.getSimulator() updates the simulator)"""
+    import py4hw
+    res = resolve_early(B, rp.get('probe', 'none'))
+    doms = plan['domains']
+    for ks, ch in sorted(rp['changes'].items()):
+        k = int(ks)
+        if ch == 'detach' and B.attached[k]:
+            detach(B, k)
+        elif ch == 'attach' and not B.attached[k]:
+            attach(B, k)
+        elif ch.startswith('replace'):
+            # a fresh driver object, gated by the enable of domain j, built in another legal form
+            _, j, form = ch.split(':')
+            j = int(j)
+            name = 'gclk' if plan.get('same_names') else 'clk_d%d_r' % k
+            obj = make_driver(py4hw, B.hw, name, form, B.wires['en%d' % j], lambda: B.W('clkw_d%d_r' % k, 1))
+            B.drvrec[k] = dict(key='d%dr' % k, name=name, obj=obj, en=B.wires['en%d' % j], kind=doms[j]['kind'], enw=doms[j]['enw'], form=form)
+            attach(B, k)
+    elaborate(B)
+    return res
 
 
 def run_design(run, plan, stim, stats=None, verbose=False):
@@ -408,43 +543,73 @@ def run_design(run, plan, stim, stats=None, verbose=False):
         run.violation('c10_build_raises', dict(exc=type(e).__name__), dict(plan=plan), observed=traceback.format_exc()[-600:],
                       what='design does not build / elaborate: %r' % (e,))
         return 'build', None
+
+    def query_violation(res, when):
+        path, got, exp = res
+        run.violation('c10_driver_query', dict(when=when, expected_is_root=(exp is B.rootdrv)), dict(plan=plan, object=path, when=when),
+                      expected=exp['key'] + ':' + exp['name'], observed=got,
+                      what='%s: getObjectClockDriver(%s) returned %r, nearest ancestor with a driver carries %s %r'
+                           % (when, path, got, exp['key'], exp['name']))
+
+    if B.early_result is not None:
+        query_violation(B.early_result, 'before the drivers were attached')
+        return 'violation', None
     if not check_assignment(run, B, plan, dict(plan=plan)):
         return 'violation', None
     doms = plan['domains']
-    seen = {k: [0, 0] for k in range(len(doms))}
+    rp = plan.get('rephase')
+    seen = {}
     diverged = False
     twins = {}
     for rec in B.blocks:
         twins.setdefault(rec['spec']['id'], []).append(rec)
+    bump('designs_by_early_step', plan.get('early', 'none'))
     with muted():
         for t, pokes in enumerate(stim):
+            if rp is not None and t == rp['at']:
+                try:
+                    res = apply_rephase(B, plan, rp)
+                except Exception as e:
+                    run.violation('c10_build_raises', dict(exc=type(e).__name__, when='re-elaboration'), dict(case, stimulus=stim[:t], cycle=t),
+                                  observed=traceback.format_exc()[-600:], what='re-elaboration before edge %d raises: %r' % (t + 1, e))
+                    return 'build', None
+                if res is not None:
+                    query_violation(res, 're-elaboration')
+                    return 'violation', None
+                if not check_assignment(run, B, plan, dict(case, stimulus=stim[:t], cycle=t), when='re-elaboration'):
+                    return 'violation', None
+                bump('rephase_probe', rp.get('probe', 'none'))
+                for ch in rp['changes'].values():
+                    bump('rephase_changes', ch.split(':')[0])
             for n, v in pokes.items():
                 B.wires[n].put(v)
             try:
                 B.sim.propagateAll()
-                en = {d['k']: d['en'].get() for d in B.domains}
+                for d in B.gating:
+                    d['now'] = d['en'].get()
                 pre = []
                 for rec in B.blocks:
                     ins = {p: w.get() for p, w in rec['ins'].items()}
-                    active = rec['dom'] is None or en[rec['dom']] != 0
+                    active = rec['drv'] is B.rootdrv or rec['drv']['now'] != 0
                     pre.append((ins, active, None if active else frozen_state(rec)))
                 B.sim.clk(1)
             except Exception as e:
                 run.violation('c10_sim_raises', dict(exc=type(e).__name__), dict(case, stimulus=stim[:t + 1], cycle=t),
                               observed=traceback.format_exc()[-600:], what='simulation raises at edge %d: %r' % (t + 1, e))
                 return 'violation', None
-            for d in B.domains:
-                k = d['k']
-                z = en[k] == 0
-                seen[k][0 if z else 1] += 1
+            for d in B.gating:
+                z = d['now'] == 0
+                seen.setdefault(d['key'], [0, 0])[0 if z else 1] += 1
                 bump('edges_enable_zero' if z else 'edges_enable_nonzero', d['kind'])
-                if not z and en[k] != 1:
+                bump('edges_enable_zero_by_form' if z else 'edges_enable_nonzero_by_form', d['form'])
+                if not z and d['now'] != 1:
                     bump('edges_enable_multibit_not_1', d['kind'])
-                    if not en[k] & 1:
+                    if not d['now'] & 1:
                         bump('edges_enable_nonzero_even', d['kind'])
             for rec, (ins, active, froz) in zip(B.blocks, pre):
                 e, cfg = rec['entry'], rec['cfg']
-                kind = 'ungated' if rec['dom'] is None else doms[rec['dom']]['kind']
+                drv = rec['drv']
+                kind = drv['kind']
                 run.ev()
                 if active:
                     rec['state'] = e.nxt(cfg, rec['state'], ins)
@@ -462,11 +627,11 @@ def run_design(run, plan, stim, stats=None, verbose=False):
                             i = [a != b for a, b in zip(now[1], froz[1])].index(True)
                             where = '%s.%s' % (rec['fattrs'][i][0].getFullPath(), rec['fattrs'][i][1])
                             ev, ov = froz[1][i], now[1][i]
-                        run.violation('c10_gated_changed', dict(kind=kind, what=what, en_width=doms[rec['dom']]['enw']),
+                        run.violation('c10_gated_changed', dict(kind=kind, what=what, en_width=drv['enw'], form=drv['form']),
                                       dict(case, stimulus=stim[:t + 1], cycle=t, block=rec['id'], where=where),
                                       expected=ev, observed=ov,
-                                      what='edge %d: enable of domain %d (%s) read 0 but %s of %s %s changed %r -> %r'
-                                           % (t + 1, rec['dom'], kind, what, e.name, where, ev, ov))
+                                      what='edge %d: enable of driver %s (%s, built as %s) read 0 but %s of %s %s changed %r -> %r'
+                                           % (t + 1, drv['key'], kind, drv['form'], what, e.name, where, ev, ov))
                         return 'violation', None
                 if rec['clocked'] == 0:
                     bump('output_checks_skipped_never_clocked', kind)
@@ -478,26 +643,29 @@ def run_design(run, plan, stim, stats=None, verbose=False):
                 bump('output_checks_active' if active else 'output_checks_gated', kind)
                 if bad:
                     o, ev, ov = bad
-                    en_val = None if rec['dom'] is None else en[rec['dom']]
-                    run.violation('c10_value', dict(kind=kind, active=bool(active), en_is_one=(en_val == 1) if en_val is not None else None),
+                    en_val = None if drv is B.rootdrv else drv['now']
+                    run.violation('c10_value', dict(kind=kind, active=bool(active), en_is_one=(en_val == 1) if en_val is not None else None,
+                                                    form=drv['form']),
                                   dict(case, stimulus=stim[:t + 1], cycle=t, block=rec['id'], out=o), expected=ev, observed=ov,
-                                  what='edge %d: %s %s%r (%s, enable read %r) output %s expected %d got %d'
-                                       % (t + 1, rec['id'], e.name, cfg, kind, en_val, o, ev, ov))
+                                  what='edge %d: %s %s%r (%s, driver built as %s, enable read %r) output %s expected %d got %d'
+                                       % (t + 1, rec['id'], e.name, cfg, kind, drv['form'], en_val, o, ev, ov))
                     return 'violation', None
             if not diverged:
                 for pair in twins.values():
                     if len(pair) == 2 and pair[0]['state'] != pair[1]['state']:
                         diverged = True
     both = any(s[0] > 0 and s[1] > 0 for s in seen.values())
-    for d in B.domains:
+    for k, d in enumerate(doms):
         bump('domains', d['kind'])
         bump('domains_enw%d' % d['enw'], d['kind'])
+        bump('domains_by_driver_form', d.get('form', 'base_wire'))
+        bump('domains_by_attach_time', d.get('attach', 'at_creation'))
     for rec in B.blocks:
         if rec['dom'] is not None:
             bump('gated_blocks_by_placement', placement(plan, rec))
             bump('gated_blocks_by_entry', rec['entry'].name)
     info = dict(nontrivial=both and diverged, seen=seen, blocks=len(B.blocks),
-                drivers={d.name: len(c.clockables) for d, c in B.sim.clockDrivers.items()})
+                drivers={'%s#%d' % (d.name, i): len(c.clockables) for i, (d, c) in enumerate(B.sim.clockDrivers.items())})
     return 'ok', info
 
 
@@ -554,6 +722,11 @@ def run_check(run, tier, seed, shard):
     run.assume('outputs of a block are compared with the reference only once the block was clocked at least once (power-up '
                'values of nets are not part of the statement); the frozen-state clause is checked from the first edge')
     run.assume('reference machines and input domains are those of C09 (vlib/seqcat.py)')
+    run.assume('a ClockDriver with an enable gates its domain however it was built (with or without base=, with or without wire=, '
+               'keyword or positional arguments): the statement speaks of "a clock driver that has an enable signal"')
+    run.assume('the clock tree in force is the one present at the latest HWSystem.getSimulator() call: drivers may be attached after '
+               'a probe / an early simulator / an RTL generation / a getObjectClockDriver query looked at the design, and may be '
+               'detached, attached or replaced later followed by getSimulator() (which re-sorts the existing simulator)')
     skip = ()
     if not dualport_simulates():
         skip = ('DualPortSynchronousMemory',)
@@ -581,7 +754,9 @@ def run_check(run, tier, seed, shard):
                 if info['nontrivial']:
                     run.nt(stable_hash([plan, stim]))
                 if idx % 37 == 0:
-                    run.sample(dict(domains=[dict(kind=d['kind'], enw=d['enw'], depth=d['depth'], inside=d['inside'], on_block=d['on_block'],
+                    run.sample(dict(early_step=plan['early'], rephase=plan['rephase'],
+                                    domains=[dict(kind=d['kind'], enw=d['enw'], depth=d['depth'], inside=d['inside'], on_block=d['on_block'],
+                                                  driver_form=d['form'], attached=d['attach'],
                                                   blocks=[(b['entry'], b['cfg'], b['role'], 'nest%d' % b['nest'], b['conn']) for b in d['blocks']])
                                              for d in plan['domains']],
                                     enable_edges_zero_nonzero=info['seen'], clockables_per_driver=info['drivers'], edges=len(stim)))
@@ -605,6 +780,18 @@ def post_merge(run, tier, seed):
         if z.get(kind, 0) == 0 or nz.get(kind, 0) == 0:
             run.inconclusive.append('domain kind %s: %d edges with enable 0, %d with enable != 0 (both must be observed)'
                                     % (kind, z.get(kind, 0), nz.get(kind, 0)))
+    zf = run.extra.get('edges_enable_zero_by_form', {})
+    nzf = run.extra.get('edges_enable_nonzero_by_form', {})
+    for form in FORMS:
+        if zf.get(form, 0) == 0 or nzf.get(form, 0) == 0:
+            run.inconclusive.append('driver form %s: %d edges with enable 0, %d with enable != 0 (both must be observed)'
+                                    % (form, zf.get(form, 0), nzf.get(form, 0)))
+    for how in EARLY:
+        if not run.extra.get('designs_by_early_step', {}).get(how):
+            run.inconclusive.append('no design with early resolution step %s' % how)
+    for ch in ('attach', 'detach', 'replace'):
+        if not run.extra.get('rephase_changes', {}).get(ch):
+            run.inconclusive.append('no mid-run %s of a clock driver followed by a re-elaboration' % ch)
     if sum(run.extra.get('edges_enable_nonzero_even', {}).values()) == 0:
         run.inconclusive.append('no edge with a multi-bit enable that is non-zero with bit 0 clear')
     if sum(run.extra.get('frozen_checks', {}).values()) == 0:
